@@ -69,12 +69,15 @@ type lbEngine struct {
 	lostDumped bool
 	recorded   map[string]bool
 	scanFns    map[string]bool // functions whose loops are byte scans: checked for unit steps and exhaustive exits
+	progress   bool            // C03/R7: every loop iteration advances the cursor or a counter
 	tiling     bool            // C13/R4: track the Space/Raw/Pos/End stores of tokens and comments
 	shallow    bool            // calls to lexer methods only move the cursor forward (not followed)
+	shallowLeaf bool           // ... except loop-free leaf helpers (skip, skipN, peek*), which are still inlined
 	rootPre    []string
 	owner   map[atomID]ssa.Value
 	live    map[*ssa.Function]map[*ssa.BasicBlock]map[ssa.Value]bool
 	moves   map[*ssa.Function]int
+	loops   map[*ssa.Function][]*natLoop
 }
 
 // lbRootPre: preconditions of roots that are interpreted without a calling context.
@@ -586,7 +589,7 @@ func (e *lbEngine) run(in *lbInst, entry *lstate) []lbRet {
 			res = e.boolPhiGuards(in, b, ins, res)
 		}
 		res = e.dropDead(fn, b, res)
-		if hasBack && res != nil && e.scanFns[fn.Name()] {
+		if hasBack && res != nil && (e.scanFns[fn.Name()] || e.progress) {
 			// ghost: the cursor at the start of this iteration
 			g := e.at.get(ghostKey{b}, fmt.Sprintf("%s.iter%d.pos", fn.Name(), b.Index), false)
 			res = res.eliminate(e.at, map[atomID]bool{g: true}).eq(linAtom(g), linAtom(e.P))
@@ -598,7 +601,7 @@ func (e *lbEngine) run(in *lbInst, entry *lstate) []lbRet {
 	// after it is looked at, and every time a loop is entered its back-edge states are cleared and its
 	// widening sequence starts afresh — so the states joined at a head always belong to the same
 	// generation.
-	loops := naturalLoops(fn)
+	loops := e.loopsOf(fn)
 	loopOf := map[*ssa.BasicBlock]*natLoop{}
 	for _, l := range loops {
 		loopOf[l.header] = l
@@ -679,6 +682,9 @@ func (e *lbEngine) run(in *lbInst, entry *lstate) []lbRet {
 		outs := e.execBlock(in, b, st, &rets)
 		if e.scanFns[fn.Name()] && e.record {
 			e.scanObligations(in, fn, b, outs)
+		}
+		if e.progress && e.record {
+			e.progressObligations(in, fn, b, outs)
 		}
 	}
 	return rets
@@ -860,6 +866,9 @@ func (e *lbEngine) dropDead(fn *ssa.Function, b *ssa.BasicBlock, s *lstate) *lst
 		if phi, ok := v.(*ssa.Phi); ok && phi.Block() == b {
 			continue
 		}
+		if phi, ok := v.(*ssa.Phi); ok && e.progress && e.inLoopOf(fn, phi.Block(), b) {
+			continue // the progress measure compares the new value with this one on the back edge
+		}
 		drop[a] = true
 	}
 	if e.trace && len(drop) > 0 && os.Getenv("VERIF_LB_LIVEDEBUG") != "" {
@@ -871,6 +880,28 @@ func (e *lbEngine) dropDead(fn *ssa.Function, b *ssa.BasicBlock, s *lstate) *lst
 		fmt.Printf("LB DROP at %s block %d: %v\n   before %s\n   after %s\n", fn.Name(), b.Index, ns, e.at.showState(s), e.at.showState(s.eliminate(e.at, drop)))
 	}
 	return s.eliminate(e.at, drop)
+}
+
+// inLoopOf: header is the head of a natural loop of fn whose body contains b.
+func (e *lbEngine) inLoopOf(fn *ssa.Function, header, b *ssa.BasicBlock) bool {
+	for _, l := range e.loopsOf(fn) {
+		if l.header == header && l.body[b] {
+			return true
+		}
+	}
+	return false
+}
+
+func (e *lbEngine) loopsOf(fn *ssa.Function) []*natLoop {
+	if e.loops == nil {
+		e.loops = map[*ssa.Function][]*natLoop{}
+	}
+	if l, ok := e.loops[fn]; ok {
+		return l
+	}
+	l := naturalLoops(fn)
+	e.loops[fn] = l
+	return l
 }
 
 // phiAssign: the parallel assignment of the integer phis of b along the edge from pred.
@@ -1082,6 +1113,16 @@ func (e *lbEngine) refine(in *lbInst, st *lstate, cond ssa.Value, pol bool) *lst
 		}
 		var facts []lfact
 		switch op {
+		case token.NEQ:
+			// a != b with a >= b (or b >= a) known: strictly greater
+			switch {
+			case isIntType(x.X.Type()) && st.proves(e.at, lfact{l: a.sub(b)}):
+				facts = []lfact{{l: a.sub(b).add(linConst(-1))}}
+			case isIntType(x.X.Type()) && st.proves(e.at, lfact{l: b.sub(a)}):
+				facts = []lfact{{l: b.sub(a).add(linConst(-1))}}
+			default:
+				return st
+			}
 		case token.EQL:
 			facts = []lfact{{l: a.sub(b)}, {l: b.sub(a)}}
 		case token.LSS:
@@ -1392,7 +1433,7 @@ func (e *lbEngine) execCall(in *lbInst, st *lstate, call *ssa.Call) *lstate {
 		}
 		return st
 	}
-	if e.shallow && callee.Signature.Recv() != nil && len(com.Args) > 0 && e.aliasOf(in, com.Args[0]) == "lexer" && e.movesCursor(callee) {
+	if e.shallow && callee.Signature.Recv() != nil && len(com.Args) > 0 && e.aliasOf(in, com.Args[0]) == "lexer" && e.movesCursor(callee) && !(e.shallowLeaf && e.isLeafHelper(callee)) {
 		// the callee only moves the cursor forward (it has no other access to Lexer.pos than skip/skipN)
 		var grow []lfact
 		for _, f := range st.f {
@@ -1746,6 +1787,84 @@ func (e *lbEngine) scanObligations(in *lbInst, fn *ssa.Function, b *ssa.BasicBlo
 				}
 				e.requireAt(st, fn, last, "C14/R8", fmt.Sprintf("%s: scan loop — the search gives up only where the terminator no longer fits", funcName(fn)),
 					[]string{what}, []lin{room})
+			}
+		}
+	}
+}
+
+// progressObligations: on every back edge of a loop of the byte-level code either the cursor is at
+// least one byte further than at the start of the iteration, or some integer phi of the loop head
+// is assigned a value at least one larger than it had.
+func (e *lbEngine) progressObligations(in *lbInst, fn *ssa.Function, b *ssa.BasicBlock, outs []*lstate) {
+	for li, l := range e.loopsOf(fn) {
+		if !l.body[b] {
+			continue
+		}
+		for si, s := range b.Succs {
+			if s != l.header || si >= len(outs) || outs[si] == nil {
+				continue
+			}
+			st := outs[si]
+			g := e.at.get(ghostKey{l.header}, fmt.Sprintf("%s.iter%d.pos", fn.Name(), l.header.Index), false)
+			ok := st.proves(e.at, lfact{l: linAtom(e.P).sub(linAtom(g)).add(linConst(-1))})
+			how := "the cursor advances"
+			pi := -1
+			for k, p := range l.header.Preds {
+				if p == b {
+					pi = k
+				}
+			}
+			if !ok && pi >= 0 {
+				for _, instr := range l.header.Instrs {
+					phi, isPhi := instr.(*ssa.Phi)
+					if !isPhi {
+						break
+					}
+					if !isIntType(phi.Type()) {
+						continue
+					}
+					nv, okl := e.linear(in, phi.Edges[pi])
+					if okl && st.proves(e.at, lfact{l: nv.sub(linAtom(e.atom(phi))).add(linConst(-1))}) {
+						ok, how = true, "counter "+phi.Comment+" increases"
+						break
+					}
+				}
+			}
+			// ranges over finite values need no measure
+			if !ok {
+				for _, instr := range l.header.Instrs {
+					if _, isNext := instr.(*ssa.Next); isNext {
+						ok, how = true, "range"
+					}
+				}
+				for bb := range l.body {
+					for _, instr := range bb.Instrs {
+						if _, isNext := instr.(*ssa.Next); isNext {
+							ok, how = true, "range"
+						}
+					}
+				}
+			}
+			construct := fmt.Sprintf("%s: loop %d — every iteration advances the cursor or a counter", funcName(fn), li+1)
+			key := "C03/R7 " + construct
+			ob := e.obs[key]
+			if ob == nil {
+				ob = &lbOb{rule: "C03/R7", construct: construct, where: e.w.pos(lastPos(l.header)), details: map[string]bool{}}
+				e.obs[key] = ob
+				e.obOrder = append(e.obOrder, key)
+			}
+			ob.total++
+			if !ok {
+				ob.failed++
+				d := fmt.Sprintf("on the back edge from block %d (%s) neither pos >= pos at the start of the iteration + 1 nor an integer loop variable grown by at least 1 is proved; reached through %s", b.Index, e.w.pos(lastPos(b)), e.context())
+				if len(ob.details) < 3 {
+					ob.details[d] = true
+				}
+				if e.trace {
+					fmt.Printf("LB FAIL %s\n   %s\n   state %s\n", key, d, e.at.showState(st))
+				}
+			} else if len(ob.details) == 0 {
+				_ = how
 			}
 		}
 	}
@@ -2111,6 +2230,44 @@ func ruleC03R6(w *World, r *Report) {
 	}
 	for _, n := range uniqSorted(e.notes) {
 		r.undecided(rule, "engine limit: "+n, "-", "the interpretation lost track of the cursor here")
+	}
+	// C03/R7: strict progress of the loops — a second, cheap run: every function of the scope on its own,
+	// loop-free leaf helpers inlined, other lexer methods summarised as "move the cursor forward"
+	r.rule("C03/R7", "every loop of the byte-level code makes strict progress: on each back edge either Lexer.pos is at least one byte further than at the start of the iteration (so a skipN(n) counts only where n >= 1 is proved; `pos != saved` counts because the cursor only moves forward) or an integer variable of the loop head has grown by at least one, or the loop ranges over a finite value", 12)
+	e2 := w.newLexBounds()
+	e2.progress, e2.shallow, e2.shallowLeaf = true, true, true
+	e2.trace = verboseRule() != "" && verboseRule() != "1" && strings.HasPrefix("C03/R7", verboseRule())
+	for _, fn := range w.ModFns {
+		if fn.Parent() != nil || fn.Synthetic != "" || !e2.inScope(fn) || len(naturalLoops(fn)) == 0 {
+			continue
+		}
+		hasNoPanic := false
+		for _, p := range fn.Params {
+			if p.Name() == "noPanic" && isBoolType(p.Type()) {
+				hasNoPanic = true
+			}
+		}
+		if hasNoPanic {
+			e2.runRoot(fn, map[string]bool{"noPanic": false})
+			e2.runRoot(fn, map[string]bool{"noPanic": true})
+		} else {
+			e2.runRoot(fn, nil)
+		}
+	}
+	for _, ob := range e2.results() {
+		if ob.rule != "C03/R7" {
+			continue
+		}
+		if ob.failed == 0 {
+			r.ok("C03/R7", ob.construct, ob.where, fmt.Sprintf("proved on %d back edge evaluation(s)", ob.total))
+		} else {
+			var ds []string
+			for d := range ob.details {
+				ds = append(ds, d)
+			}
+			sort.Strings(ds)
+			r.bad("C03/R7", ob.construct, ob.where, fmt.Sprintf("%d of %d: %s", ob.failed, ob.total, strings.Join(ds, " | ")))
+		}
 	}
 	// who writes Lexer.pos
 	for _, fn := range w.ModFns {
